@@ -3,7 +3,7 @@ from translators import tr_c10
 
 PID = "C10"
 CLAIM = True
-MANIFEST_TEXT = ("55 Lean 4 theorems (lean/DuneVerif/Props/C10.lean), for every digit count n (unbounded) and all well-formed "
+MANIFEST_TEXT = ("62 Lean 4 theorems (lean/DuneVerif/Props/C10.lean), for every digit count n (unbounded) and all well-formed "
                  "operands, about the digit-loop model of bigunsignedint that the driver runs against the real class: "
                  "add/incr/sub/mul are exact modulo W=2^(16n) (carry, borrow, double-width temporary and truncation included), "
                  "div/mod by a non-zero divisor return the exact quotient/remainder with the subtraction loop leaving through "
@@ -21,7 +21,18 @@ MANIFEST_TEXT = ("55 Lean 4 theorems (lean/DuneVerif/Props/C10.lean), for every 
                  "numbers mod 2^(16n) (induction over the program; a/=a is 1, a%=a is 0). The proofs use the masks/width "
                  "formula/numeric_limits data regenerated from bigunsignedint.hh on every run as obligations, and the model is "
                  "run against the real class on >=24k boundary-biased cases per run (single operators, constructor overloads "
-                 "from 11 built-in types, histories of up to 10/24 statements) with a GMP oracle deciding the property itself.")
+                 "from 11 built-in types, histories of up to 10/24 statements) with a GMP oracle deciding the property itself. "
+                 "Round four: straight-line code of the header is regenerated too -- the operator list of DUNE_BINOP, the bodies of "
+                 "the 20 free mixed operators (10 for uintmax_t, 10 from the signed-operand macro) as a table (mixed_table_spec: "
+                 "each applies its own operator to the operands in their own order after converting the built-in one), how > >= == "
+                 "are derived from <= < != (gt_iff/ge_iff/eq_iff are now about the generated definitions), the remaining "
+                 "numeric_limits members (limits_rest_spec) and the MPI datatype of MPITraits<bigunsignedint<k>> (mpi_type_spec: one "
+                 "block at `digit` of n elements of `bits` bits = numeric_limits::digits bits) -- and the model evaluates mixed "
+                 "operators and derived comparisons through these tables. hist_refines extends the all-histories refinement to "
+                 "statements with a built-in operand of any integral type up to 64 bits (d = d OP y, d = y OP d through the table; "
+                 "d OP= y through the implicit constructor), the six comparisons between variables/with themselves/with a "
+                 "built-in, and touint(), with observations value | MathError | negative operand rejected | boolean | number; "
+                 "negative_builtin_rejected: a negative built-in is rejected in all of them and nothing is modified.")
 MANIFEST_NOTE = ("Trusted: Lean kernel (+propext/Classical.choice/Quot.sound), tr_c10.py, the hand-written model's fidelity "
                  "(lean/DuneVerif/Model/C10.lean mirrors each operator loop, Model/C10Prog.lean the statement semantics; checked "
                  "by differential execution only), GMP, g++/ASan/UBSan. Aliasing (a op= a) is modelled at value level (the "
@@ -31,8 +42,11 @@ MANIFEST_NOTE = ("Trusted: Lean kernel (+propext/Classical.choice/Quot.sound), t
                  "itself, the hash function's value, MPITraits, and O(quotient) division with quotients >400 (single operators) / "
                  ">2000 (histories: such a statement ends the case with SKIP) are covered by the run only or not at all. A "
                  "behavioural change of todouble that keeps the 2^-32 bound is reported as no-failing-input-found (model is an "
-                 "exact copy).")
-TECHNIQUE = 'Lean 4 proof over digit-list model (per operator + all histories) + translator for constants/limits + differential correspondence with GMP oracle'
+                 "exact copy). MPITraits is tied by translation only (never executed: the harness is sequential); overload "
+                 "resolution between the signed template overloads and the uintmax_t overloads is a hand-written rule of the model "
+                 "(signed type -> checking overload), checked by the run for i8 i16 i32 long long-long u8 u16 u32 ulong "
+                 "ulong-long bool; printing is run under showbase/uppercase/showpos/hex/oct flags but not with a field width.")
+TECHNIQUE = 'Lean 4 proof over digit-list model (per operator + all histories with built-in operands and observations) + translator for constants/limits/operator tables/derived comparisons/MPI datatype + differential correspondence with GMP oracle'
 TRANSLATORS = [tr_c10.translate]
 HARNESS = dict(
     sources=["cxx_c10.cc"],
@@ -40,15 +54,19 @@ HARNESS = dict(
     libs=["-lgmpxx", "-lgmp"],
     flags=["-O0"],   # ten widths x all operators: 12 s instead of 45 s to compile; the run itself takes < 5 s
 )
-RULE = ("cases: random operator x width k in {8,16,24,32,48,64,65,100,128,256} x operands whose 16-bit digits are drawn "
+RULE = ("cases: random operator x width k in {1,8,16,17,24,32,48,64,65,100,128,129,256} x operands whose 16-bit digits are drawn "
         "mostly from {0000,0001,7fff,8000,fffe,ffff}; related operand pairs (equal, +-1, one-bit difference, sums at "
         "the wrap); constructor calls from i8/i16/i32/i64(long, long long)/u8/u16/u32/u64/bool at the type's limits; "
         "histories `k prog A B : stmt;...` of 1..10 (thorough 1..24) compound statements on two variables, a quarter of the "
-        "binary statements self-aliased; distinct = distinct op lines; non-trivial = oracle-checked value/comparison "
+        "binary statements self-aliased, a third of the statements with a typed built-in operand (i8..i64, u8..u64, bool; a "
+        "quarter of those negative), comparisons (also x CMP x, x CMP own value +-1, x CMP low 64 bits) or touint; printing "
+        "under 32 combinations of stream format flags; distinct = distinct op lines; non-trivial = oracle-checked value/comparison "
         "(hasheq on unequal values is trivial)")
 ASSUMPTIONS = [
     "the Lean model lean/DuneVerif/Model/C10.lean + C10Prog.lean is hand-written; its fidelity to bigunsignedint.hh rests on this differential run",
-    "constants (bits, masks, digit-count formula) and the numeric_limits data are regenerated from the source by tools/translators/tr_c10.py",
+    "constants (bits, masks, digit-count formula), the numeric_limits data, the DUNE_BINOP operator list, the bodies of the 20 mixed operators, the derivation of > >= == and the MPI datatype description are regenerated from the source by tools/translators/tr_c10.py",
+    "C++ overload resolution (signed built-in -> checking template overload / constructor, everything else -> uintmax_t) is a hand-written rule of the model, exercised by the run for 11 built-in types",
+    "MPITraits<bigunsignedint<k>>::getType is translated, not executed; MPI itself is trusted to transport a committed datatype",
     "todouble: IEEE double operations are exact on the modelled values (theorem todouble_mantissa_exact: mantissa < 2^53; ldexp exact below 2^1024)",
     "division/remainder are exercised with quotients <= 400 (single operators) / <= 2000 (histories) only (the real algorithm is O(quotient))",
     "self-aliased compound operators (a op= a) are modelled as the operation on two equal values; a case that does not return within 30 s is killed and reported",
